@@ -61,6 +61,7 @@ def run(ctx: Ctx, chk) -> None:
                 else:
                     chk.refute(rule, key, f"`{norm(node)}` writes {path} but it is not atomically moved onto the live path after being closed", ctx.loc(f, node))
     chk.floor(rule, "open() sites in Persistence", n, 2)
+    inplace2(ctx, chk)
     # replace targets
     for fl in pers.methods.values():
         for f in fl:
@@ -81,3 +82,48 @@ def _fold(ctx: Ctx, f, e: ast.expr):
         return v if isinstance(v, str) else None
     except Unfoldable:
         return None
+
+
+def inplace2(ctx: Ctx, chk) -> None:
+    """The window in which the live file is truncated must contain nothing but the write of a precomputed text."""
+    rule = "INPLACE-2"
+    chk.rule(rule, "while the persistence file is open for writing nothing is computed that can fail or suspend except the write itself: the registry is serialised completely before the file is opened (an exception while dumping must not leave a truncated file)")
+    pers = ctx.cls(PERS)
+    for fl in pers.methods.values():
+        for f in fl:
+            for w in ctx.own_nodes(f):
+                if not isinstance(w, (ast.With, ast.AsyncWith)):
+                    continue
+                opens = [it.context_expr for it in w.items if isinstance(it.context_expr, ast.Call) and any(o in callee_names(ctx, f, it.context_expr) for o in OPENERS)]
+                writing = False
+                for o in opens:
+                    mode = "r"
+                    if len(o.args) >= 2:
+                        mode = _fold(ctx, f, o.args[1]) or "?"
+                    for kw in o.keywords:
+                        if kw.arg == "mode":
+                            mode = _fold(ctx, f, kw.value) or "?"
+                    if any(c in mode for c in "wax+?"):
+                        writing = True
+                if not writing:
+                    continue
+                chk.instance(rule)
+                key = f"{f.fq}::with-body::{norm(opens[0])[:60]}"
+                allowed_calls = ("json.dumps",)
+                bad = None
+                for st in w.body:
+                    for c in [x for x in ast.walk(st) if isinstance(x, ast.Call)]:
+                        names = callee_names(ctx, f, c)
+                        is_write = isinstance(c.func, ast.Attribute) and c.func.attr in ("write", "flush", "close", "fsync")
+                        if is_write or any(a in names for a in allowed_calls) or any(n_.startswith("os.fsync") for n_ in names):
+                            continue
+                        bad = c
+                        break
+                    if bad is None and not isinstance(st, (ast.Expr, ast.Assign)):
+                        bad = st
+                    if bad is not None:
+                        break
+                if bad is None:
+                    chk.ok(rule, key, "the block only writes text that was serialised before the file was opened", ctx.loc(f, w))
+                else:
+                    chk.refute(rule, key, f"`{norm(bad)[:70]}` runs after the persistence file was opened for writing (already truncated): if it raises, the save dies leaving an empty or partial file although no file operation failed", ctx.loc(f, bad))
